@@ -2,7 +2,8 @@
 C12 — the accounts (likelihood-evaluation counter, likelihood-evaluation time, sampling time) of a
 sampler across checkpoints, kills and resumes.  Core Lean only.
 
-What is modelled (nessai/samplers/base.py, nessai/model.py, nessai/samplers/nestedsampler.py):
+What is modelled (nessai/samplers/base.py, nessai/model.py, nessai/samplers/nestedsampler.py,
+nessai/samplers/importancesampler.py):
 
 * `Model.likelihood_evaluations` / `Model.likelihood_evaluation_time` live on the *model object*; a
   fresh process builds a fresh model, so both start at 0 (class attributes).
@@ -10,12 +11,14 @@ What is modelled (nessai/samplers/base.py, nessai/model.py, nessai/samplers/nest
   `_previous_likelihood_evaluations` / `_previous_likelihood_evaluation_time`.
 * `BaseNestedSampler.resume_from_pickled_sampler` does
   `model.likelihood_evaluations += sampler._previous_likelihood_evaluations` (and the same for the time)
-  on the model it is handed.
+  on the model it is handed.  It does NOT touch `sampling_start_time`: between the resume
+  (`FlowSampler.__init__`) and the entry of the sampling loop the sampler carries the pickled start.
 * `BaseNestedSampler.checkpoint`: `sampling_time += now - sampling_start_time`, pickle (the pickle
-  therefore holds the OLD `sampling_start_time`), then `sampling_start_time = now`.
-* `NestedSampler.nested_sampling_loop` sets `sampling_start_time = now` on entry;
-  `ImportanceNestedSampler.nested_sampling_loop` does not (`resetStart = false`), so a resumed
-  importance sampler keeps the pickled, stale start time.
+  therefore holds the OLD `sampling_start_time`), then `sampling_start_time = now`.  It can be called at
+  any moment a process is alive — in particular by the signal handler (`FlowSampler.safe_exit`) between
+  the resume and the loop entry.
+* `nested_sampling_loop` of both samplers sets `sampling_start_time = now` on entry (`resetStart`; the
+  generated table `loopResetsStart` says whether the current sources do).
 
 Time is a logical clock (`Nat` ticks) that keeps running while no process is alive (`down`).
 -/
@@ -23,13 +26,15 @@ namespace NessaiVerif.Accounts
 
 /-- One step of a run's life. -/
 inductive Op
-  /-- a process is started: fresh `Model`, `FlowSampler(resume=True)`; resumes from the checkpoint file if
-      there is one, builds a fresh sampler otherwise; then the sampling loop is entered -/
-  | launch
+  /-- a process is started: fresh `Model`, `FlowSampler(resume=True)` — resumes from the checkpoint file if there
+      is one (`resume_from_pickled_sampler`), builds a fresh sampler otherwise.  The loop is NOT yet entered. -/
+  | resume
+  /-- `nested_sampling_loop` is entered by the live process -/
+  | enterLoop
   /-- the live process performs `e` likelihood evaluations while `t` ticks elapse, `lt` of them inside
       the timed window of `batch_evaluate_log_likelihood` -/
   | run (e t lt : Nat)
-  /-- a checkpoint file is written (completely) -/
+  /-- a checkpoint file is written (completely): periodic, forced, or by the signal handler -/
   | checkpoint
   /-- the process dies; nothing is written -/
   | kill
@@ -48,6 +53,8 @@ structure Saved where
 structure St where
   clock : Nat := 0
   alive : Bool := false
+  /-- control position of the live process: has `nested_sampling_loop` been entered? -/
+  inLoop : Bool := false
   mEvals : Nat := 0          -- model.likelihood_evaluations of the live process
   mLtime : Nat := 0          -- model.likelihood_evaluation_time
   stime : Nat := 0           -- sampler.sampling_time
@@ -57,27 +64,35 @@ structure St where
 
 /-- How the code is configured / written. -/
 structure Cfg where
-  /-- the sampling loop re-arms `sampling_start_time` on entry (NestedSampler: yes; importance sampler: no) -/
+  /-- the sampling loop re-arms `sampling_start_time` on entry (true for both samplers in the current sources) -/
   resetStart : Bool
+  /-- `resume_from_pickled_sampler` re-arms `sampling_start_time` (the current sources do not: generated table
+      `resumeRearmsStart`) -/
+  rearmOnResume : Bool
   /-- the model object handed to the resume is fresh (counter 0), as in a new process -/
   freshModel : Bool
   deriving Repr, DecidableEq
 
 def step (c : Cfg) (s : St) : Op → St
-  | .launch =>
+  | .resume =>
     match s.file with
     | none =>
       -- no checkpoint: a fresh sampler is built (`sampling_time = 0`, `sampling_start_time = now`)
-      { s with alive := true
+      { s with alive := true, inLoop := false
                mEvals := if c.freshModel then 0 else s.mEvals
                mLtime := if c.freshModel then 0 else s.mLtime
                stime := 0, start := s.clock }
     | some sv =>
-      { s with alive := true
+      -- unpickle + resume_from_pickled_sampler: counters re-seeded with `+=`, the pickled start is kept
+      -- (unless the resume re-arms it)
+      { s with alive := true, inLoop := false
                mEvals := (if c.freshModel then 0 else s.mEvals) + sv.evals
                mLtime := (if c.freshModel then 0 else s.mLtime) + sv.ltime
                stime := sv.stime
-               start := if c.resetStart then s.clock else sv.start }
+               start := if c.rearmOnResume then s.clock else sv.start }
+  | .enterLoop =>
+    -- once per process: a second entry is not modelled (no-op)
+    if s.alive && !s.inLoop then { s with inLoop := true, start := if c.resetStart then s.clock else s.start } else s
   | .run e t lt =>
     if s.alive then { s with clock := s.clock + t, mEvals := s.mEvals + e, mLtime := s.mLtime + lt } else s
   | .checkpoint =>
@@ -87,7 +102,7 @@ def step (c : Cfg) (s : St) : Op → St
                file := some { evals := s.mEvals, ltime := s.mLtime, stime := st', start := s.start }
                start := s.clock }
     else s
-  | .kill => { s with alive := false }
+  | .kill => { s with alive := false, inLoop := false }
   | .down d => if s.alive then s else { s with clock := s.clock + d }
 
 def exec (c : Cfg) (s : St) (h : List Op) : St := h.foldl (step c) s
@@ -99,19 +114,22 @@ def St.current (s : St) : Nat := s.stime + (s.clock - s.start)
 
 `committed` are the `run` steps covered by the last completed checkpoint of the lineage that is alive
 (or was alive last), `pending` the ones performed since.  A kill discards `pending`; nothing else is ever
-discarded, and nothing is ever added twice. -/
+discarded, and nothing is ever added twice.  Sampling time is the time spent inside the sampling loop: the
+ticks of a step performed before the loop is entered are recorded as 0. -/
 structure Log where
   alive : Bool := false
+  inLoop : Bool := false
   committed : List (Nat × Nat × Nat) := []
   pending : List (Nat × Nat × Nat) := []
   hasFile : Bool := false
   deriving Repr, DecidableEq
 
 def logStep (l : Log) : Op → Log
-  | .launch => { l with alive := true, pending := [] }
-  | .run e t lt => if l.alive then { l with pending := l.pending ++ [(e, t, lt)] } else l
+  | .resume => { l with alive := true, inLoop := false, pending := [] }
+  | .enterLoop => if l.alive && !l.inLoop then { l with inLoop := true } else l
+  | .run e t lt => if l.alive then { l with pending := l.pending ++ [(e, if l.inLoop then t else 0, lt)] } else l
   | .checkpoint => if l.alive then { l with committed := l.committed ++ l.pending, pending := [], hasFile := true } else l
-  | .kill => { l with alive := false }
+  | .kill => { l with alive := false, inLoop := false }
   | .down _ => l
 
 def logOf (l : Log) (h : List Op) : Log := h.foldl logStep l
@@ -122,23 +140,38 @@ def sumE (xs : List (Nat × Nat × Nat)) : Nat := (xs.map (fun x => x.1)).sum
 def sumT (xs : List (Nat × Nat × Nat)) : Nat := (xs.map (fun x => x.2.1)).sum
 def sumL (xs : List (Nat × Nat × Nat)) : Nat := (xs.map (fun x => x.2.2)).sum
 
-/-- every `run` step a live process performed, in order (what an uninterrupted observer would add up) -/
-def performed : Bool → List Op → List (Nat × Nat × Nat)
-  | _, [] => []
-  | _, .launch :: h => performed true h
-  | _, .kill :: h => performed false h
-  | alive, .run e t lt :: h => if alive then (e, t, lt) :: performed alive h else performed alive h
-  | alive, .checkpoint :: h => performed alive h
-  | alive, .down _ :: h => performed alive h
+/-- every `run` step a live process performed, in order (what an uninterrupted observer would add up; ticks
+    outside the sampling loop recorded as 0, as in the log) -/
+def performed : Bool → Bool → List Op → List (Nat × Nat × Nat)
+  | _, _, [] => []
+  | _, _, .resume :: h => performed true false h
+  | alive, inLoop, .enterLoop :: h => performed alive (alive || inLoop) h
+  | _, _, .kill :: h => performed false false h
+  | alive, inLoop, .run e t lt :: h =>
+    if alive then (e, if inLoop then t else 0, lt) :: performed alive inLoop h else performed alive inLoop h
+  | alive, inLoop, .checkpoint :: h => performed alive inLoop h
+  | alive, inLoop, .down _ :: h => performed alive inLoop h
 
-/-- histories the harness produces: a process is launched only when none is alive, and only a live
-    process runs / checkpoints / is killed -/
+/-- histories the harness produces: a process is started only when none is alive, and only a live
+    process enters the loop / runs / checkpoints / is killed -/
 def wellFormed : Bool → List Op → Bool
   | _, [] => true
-  | alive, .launch :: h => !alive && wellFormed true h
+  | alive, .resume :: h => !alive && wellFormed true h
+  | alive, .enterLoop :: h => alive && wellFormed alive h
   | alive, .kill :: h => alive && wellFormed false h
   | alive, .run _ _ _ :: h => alive && wellFormed alive h
   | alive, .checkpoint :: h => alive && wellFormed alive h
   | alive, .down _ :: h => wellFormed alive h
+
+/-- every checkpoint of the history is written from inside the sampling loop (periodic, on-training and final
+    checkpoints are; a signal-handler checkpoint between the resume and the loop entry is not) -/
+def ckptInLoop : Bool → Bool → List Op → Bool
+  | _, _, [] => true
+  | _, _, .resume :: h => ckptInLoop true false h
+  | alive, inLoop, .enterLoop :: h => ckptInLoop alive (alive || inLoop) h
+  | _, _, .kill :: h => ckptInLoop false false h
+  | alive, inLoop, .checkpoint :: h => (!alive || inLoop) && ckptInLoop alive inLoop h
+  | alive, inLoop, .run _ _ _ :: h => ckptInLoop alive inLoop h
+  | alive, inLoop, .down _ :: h => ckptInLoop alive inLoop h
 
 end NessaiVerif.Accounts
